@@ -229,9 +229,52 @@ def feasible_schedules(inst, L, cap=400000):
 
 
 # ----------------------------------------------------------------------------- generators
+# (job name, operation name) pairs of DIFFERENT jobs whose Operation.identifier (job_name + "_" + name) coincides: identifiers
+# only have to be unique within a job, so these are valid instances; anything keyed by the identifier string confuses them.
+COLLIDING_NAMES = [
+    [("a_b", "c"), ("a", "b_c")],
+    [("x_", "y"), ("x", "_y")],
+    [("a__", "b"), ("a_", "_b"), ("a", "__b")],
+    [("_", "_"), ("__", "")],            # second entry is skipped below (empty names are rejected); kept to document the limit
+    [("j_", "_"), ("j", "__")],
+    [("é_z", "w"), ("é", "z_w")],
+    [("job 1_o", "0"), ("job 1", "o_0")],
+    [("a_b", "c_d"), ("a", "b_c_d"), ("a_b_c", "d")],
+]
+
+
+def collide_names(rng, inst):
+    """Rename jobs / operations of a valid instance with >= 2 jobs so that operations of different jobs share their identifier
+    string (at different positions of their jobs where possible, so that their variables differ).  Still a valid instance."""
+    family = [pair for pair in rng.choice(COLLIDING_NAMES) if pair[0] and pair[1]]
+    jobs = inst["jobs"]
+    if len(jobs) < 2 or len(family) < 2:
+        return inst, False
+    picks = rng.sample(range(len(jobs)), min(len(jobs), len(family)))
+    for slot, ji in enumerate(picks):
+        jn, on = family[slot]
+        job = jobs[ji]
+        job["name"] = jn
+        hit = (slot + rng.randrange(len(job["ops"]))) % len(job["ops"])
+        for x, o in enumerate(job["ops"]):
+            o["job"] = jn
+            o["name"] = on if x == hit else f"p{x}"
+    return inst, True
+
+
 def gen_instance(rng, max_ops_total=6):
     """Valid instances with the shapes the suite never builds: single-operation jobs, unused machines, a single job,
-    all jobs on different machines (no overlap pair), all single-operation (no precedence pair)."""
+    all jobs on different machines (no overlap pair), all single-operation (no precedence pair); one in eight instances with
+    several jobs gets separator-laden names whose identifiers collide across jobs."""
+    inst, shape = _gen_instance(rng, max_ops_total)
+    if len(inst["jobs"]) >= 2 and rng.random() < 0.2:
+        inst, done = collide_names(rng, inst)
+        if done:
+            shape += "+colliding-names"
+    return inst, shape
+
+
+def _gen_instance(rng, max_ops_total=6):
     shape = rng.choice(["random", "random", "random", "single-job", "single-op-jobs", "disjoint-machines", "one-op"])
     if shape == "one-op":
         m = rng.randint(1, 2)
@@ -420,12 +463,12 @@ def examine(ctx, batch, case, want, rng, max_all=10):
             counts = impl_counts(enc, inst)
         except Exception:
             counts = None
-        if counts is not None and n <= 48:
+        if counts is not None and n <= 48 and expected_qubits(inst, L) <= 48 and H.num_qubits == n:  # the model's circuit has expected_qubits qubits
             batch.add(lit_ham(inst, L, P, "", terms, scale * 1e-9, counts), case)
         elif counts is not None:
             # the term-by-term comparison through the model's normal form costs minutes for ~1000 qubits: oracle only
             ctx.tally("large-n:model-hamiltonian-comparison-skipped")
-        if 1 <= n <= 12:
+        if 1 <= n <= 12 and H.num_qubits == n:
             diag = diag_of_terms(terms, n)
             if n <= 6:  # cross-check of the direct Z-string evaluation against Qiskit's own matrix
                 import numpy as np
@@ -897,4 +940,16 @@ def examine_large_slack(ctx, batch, case, want, rng, n_samples=5):
 
 
 def examiner(case):
-    return examine_large_slack if case.get("large_slack") else examine_low_energy if case.get("scan") else examine
+    f = examine_large_slack if case.get("large_slack") else examine_low_energy if case.get("scan") else examine
+
+    def guarded(ctx, batch, c, want, rng):
+        try:
+            return f(ctx, batch, c, want, rng)
+        except Exception as e:  # noqa  -- implementation output the oracle code cannot even evaluate (wrong shapes, missing keys ...)
+            import traceback
+
+            ctx.violation("oracle", f"output-unusable-{type(e).__name__}", f"the implementation's outputs for this case could not be evaluated: {type(e).__name__}: {e}", c,
+                          detail=traceback.format_exc()[-1500:])
+            return {"n": None, "states": 0}
+
+    return guarded
